@@ -601,9 +601,9 @@ def run(cfg):
     rep.extend_violations(lt.get('violations', []))
     rep.extend_violations(ht.get('violations', []))
     rep.coverage = {
-        'states': ht['states'] + len(lt.get('outcomes', ())) + len(ft.get('outcomes', ())),
-        'transitions': ht['transitions'] + lt.get('remote_ops', 0) + ft.get('splits', 0),
-        'traces_validated_against_impl': ht.get('remote_ops', 0) + lt.get('remote_ops', 0) + ft.get('splits', 0),
+        'states': ht['states'] + len(lt.get('outcomes', ())) + len(ft.get('outcomes', ())) + len(st.get('send_outcomes', ())),
+        'transitions': ht['transitions'] + lt.get('remote_ops', 0) + ft.get('splits', 0) + st.get('send_drains', 0),
+        'traces_validated_against_impl': ht.get('remote_ops', 0) + lt.get('remote_ops', 0) + ft.get('splits', 0) + st.get('send_runs', 0),
         'samples': [{'client': c, 'twin': t} for _, c, t in (cases[0], cases[len(FIXED_FORMS)], cases[-1])]
         + [{'framing': 'messages %r in every split into <= 3 reads' % (_short(_frame_sets(cfg.quick)[-1]),)}],
         'exhaustive': not ht['capped'],
